@@ -155,7 +155,8 @@ func ZZ_C20_round_state() {
 	}
 	voters := NewVoterSet(ws)
 	vrt.Assert("voterset_ok", voters != nil)
-	threshold := int(voters.Threshold())
+	threshold := n - (n-1)/3 // supermajority: total weight minus the tolerated faulty weight
+	vrt.Assert("threshold_matches_definition", int(voters.Threshold()) == threshold)
 	pv, pc := make(zzVotes20, n), make(zzVotes20, n)
 	for i := 0; i < n; i++ {
 		sfx := string(rune('0' + i))
